@@ -15,19 +15,30 @@ inductive Desc where
   | same | neg | bnot | unk
   deriving DecidableEq, Repr
 
-/-- per-node facts: relation descriptor, "this node is −(node k)", "this node is the constant ±0",
-"this node is an input that is negated exactly, non-NaN and non-zero". -/
+/-- per-node facts: relation descriptor; "this node is −(node k)"; "this node is the constant ±0";
+"this node is an input that is negated exactly, non-NaN and non-zero"; "this node is the constant c";
+"the truth value of this node is b in both runs"; "this node is eq(node a, c) for a non-NaN constant c";
+"this node is add/sub(node a, node b)". -/
 structure Info where
   d : Desc
   negOf : Option Nat := none
   zero : Bool := false
   nzin : Bool := false
+  cst : Option Nat := none
+  kb : Option Bool := none
+  eqc : Option (Nat × Nat) := none
+  addsub : Option (Bool × Nat × Nat) := none
   deriving DecidableEq, Repr
 
 structure Cfg where
   sigma : List Desc      -- how each input is transformed (same / neg)
   nz : List Nat          -- inputs assumed non-NaN and non-zero (and transformed by exact negation)
   deriving Repr
+
+def dIdx (infos : List Info) (j : Nat) : Desc :=
+  match infos[j]? with
+  | some x => x.d
+  | none => .unk
 
 def dOf (infos : List Info) (args : List Nat) (i : Nat) : Desc :=
   match args[i]? with
@@ -51,14 +62,48 @@ def mulDesc : Desc → Desc → Desc
 /-- comparison against the constant ±0 of an exactly negated non-zero non-NaN input: flips -/
 def cmpFlip (infos : List Info) (args : List Nat) : Bool :=
   match infoOf infos args 0, infoOf infos args 1 with
-  | some a, some b => a.nzin && b.zero
+  | some a, some b => (a.nzin && b.zero) || (b.nzin && a.zero)
   | _, _ => false
 
-def isNegPair (infos : List Info) (args : List Nat) : Bool :=
+/-- first operand negated (NaN matching NaN), second the constant ±0: equality tests are unchanged -/
+def eqNegZero (infos : List Info) (args : List Nat) : Bool :=
+  match infoOf infos args 0, infoOf infos args 1 with
+  | some a, some b => (a.d == .neg && b.zero) || (b.d == .neg && a.zero)
+  | _, _ => false
+
+def isNegPair (f : Fmt) (infos : List Info) (args : List Nat) : Bool :=
   match args[1]?, args[2]? with
   | some a, some b =>
     (match infos[a]? with | some x => x.negOf == some b | none => false) ||
-    (match infos[b]? with | some x => x.negOf == some a | none => false)
+    (match infos[b]? with | some x => x.negOf == some a | none => false) ||
+    (match infos[a]?, infos[b]? with
+      | some x, some y => (match x.cst, y.cst with
+          | some c1, some c2 => c2 == FP.neg f c1
+          | _, _ => false)
+      | _, _ => false)
+  | _, _ => false
+
+/-- `(c ⊕ x)·(c ⊖ x)` with `c` unchanged and `x` negated: the two factors swap.  The sum may be
+written `c ⊕ x` or `x ⊕ c`. -/
+def swapPair (infos : List Info) (args : List Nat) : Bool :=
+  match infoOf infos args 0, infoOf infos args 1 with
+  | some x, some y => (match x.addsub, y.addsub with
+      | some (t1, a1, b1), some (t2, a2, b2) =>
+        -- normalise so that (sa, sb) are the operands of the difference
+        let sa := if t1 then a2 else a1
+        let sb := if t1 then b2 else b1
+        let pa := if t1 then a1 else a2
+        let pb := if t1 then b1 else b2
+        t1 != t2 && ((pa == sa && pb == sb) || (pa == sb && pb == sa)) && dIdx infos sa == .same && dIdx infos sb == .neg
+      | _, _ => false)
+  | _, _ => false
+
+/-- `a == c || a == −c` with `a` negated -/
+def orSwap (f : Fmt) (infos : List Info) (args : List Nat) : Bool :=
+  match infoOf infos args 0, infoOf infos args 1 with
+  | some x, some y => (match x.eqc, y.eqc with
+      | some (a1, c1), some (a2, c2) => a1 == a2 && c2 == FP.neg f c1 && dIdx infos a1 == .neg
+      | _, _ => false)
   | _, _ => false
 
 def selDesc (dc da db : Desc) (np : Bool) : Desc :=
@@ -67,36 +112,79 @@ def selDesc (dc da db : Desc) (np : Bool) : Desc :=
   | .bnot => if da = .same ∧ db = .same ∧ np then .neg else .unk
   | _ => .unk
 
+def kbOf (infos : List Info) (args : List Nat) (i : Nat) : Option Bool :=
+  match infoOf infos args i with
+  | some x => x.kb
+  | none => none
+
+def cstOf (infos : List Info) (args : List Nat) (i : Nat) : Option Nat :=
+  match infoOf infos args i with
+  | some x => x.cst
+  | none => none
+
+def nzinOf (infos : List Info) (args : List Nat) (i : Nat) : Bool :=
+  match infoOf infos args i with
+  | some x => x.nzin
+  | none => false
+
+def argPair (args : List Nat) : Option (Nat × Nat) :=
+  match args[0]?, args[1]? with
+  | some a, some b => some (a, b)
+  | _, _ => none
+
 def stepInfo (f : Fmt) (cfg : Cfg) (infos : List Info) (n : Node) : Info :=
   let d := dOf infos n.args
   match n.op with
   | .input =>
     { d := (cfg.sigma[n.imm]?).getD .unk, nzin := cfg.nz.contains n.imm && (cfg.sigma[n.imm]?).getD .unk == .neg }
-  | .const => { d := .same, zero := n.imm == 0 || n.imm == f.signBit }
+  | .const => { d := .same, zero := n.imm == 0 || n.imm == f.signBit, cst := some n.imm }
   | .bconst => { d := .same }
-  | .neg => { d := (match d 0 with | .same => .same | .neg => .neg | _ => .unk), negOf := n.args[0]? }
+  | .neg => { d := (match d 0 with | .same => .same | .neg => .neg | _ => .unk), negOf := n.args[0]?, nzin := nzinOf infos n.args 0 }
   | .abs => { d := match d 0 with | .same => .same | .neg => .same | _ => .unk }
   | .sqrt => { d := if d 0 = .same then .same else .unk }
-  | .add => { d := if d 0 = .same ∧ d 1 = .same then .same else .unk }
-  | .sub => { d := if d 0 = .same ∧ d 1 = .same then .same else .unk }
+  | .add =>
+    { d := if d 0 = .same ∧ d 1 = .same then .same
+           else if n.args[0]? = n.args[1]? ∧ d 0 = .neg then .neg else .unk,
+      addsub := (argPair n.args).map fun (a, b) => (true, a, b) }
+  | .sub =>
+    { d := if d 0 = .same ∧ d 1 = .same then .same else .unk,
+      addsub := (argPair n.args).map fun (a, b) => (false, a, b) }
   | .pymax => { d := if d 0 = .same ∧ d 1 = .same then .same else .unk }
   | .pymin => { d := if d 0 = .same ∧ d 1 = .same then .same else .unk }
   | .and => { d := if d 0 = .same ∧ d 1 = .same then .same else .unk }
-  | .or => { d := if d 0 = .same ∧ d 1 = .same then .same else .unk }
-  | .mul => { d := mulDesc (d 0) (d 1) }
+  | .or => { d := if d 0 = .same ∧ d 1 = .same then .same else if orSwap f infos n.args then .same else .unk }
+  | .mul => { d := if swapPair infos n.args then .same else mulDesc (d 0) (d 1) }
   | .div => { d := mulDesc (d 0) (d 1) }
   | .lt => { d := if d 0 = .same ∧ d 1 = .same then .same else if cmpFlip infos n.args then .bnot else .unk }
   | .le => { d := if d 0 = .same ∧ d 1 = .same then .same else if cmpFlip infos n.args then .bnot else .unk }
   | .gt => { d := if d 0 = .same ∧ d 1 = .same then .same else if cmpFlip infos n.args then .bnot else .unk }
   | .ge => { d := if d 0 = .same ∧ d 1 = .same then .same else if cmpFlip infos n.args then .bnot else .unk }
-  | .eq => { d := if (d 0 = .same ∧ d 1 = .same) ∨ (d 0 = .neg ∧ d 1 = .neg) then .same else .unk }
-  | .ne => { d := if (d 0 = .same ∧ d 1 = .same) ∨ (d 0 = .neg ∧ d 1 = .neg) then .same else .unk }
+  | .eq =>
+    { d := if (d 0 = .same ∧ d 1 = .same) ∨ (d 0 = .neg ∧ d 1 = .neg) then .same
+           else if eqNegZero infos n.args then .same else .unk,
+      kb := if cmpFlip infos n.args then some false else none,
+      eqc := match n.args[0]?, cstOf infos n.args 1 with
+        | some a, some c => if isNaNBits f c then none else some (a, c)
+        | _, _ => (match n.args[1]?, cstOf infos n.args 0 with
+          | some a, some c => if isNaNBits f c then none else some (a, c)
+          | _, _ => none) }
+  | .ne =>
+    { d := if (d 0 = .same ∧ d 1 = .same) ∨ (d 0 = .neg ∧ d 1 = .neg) then .same
+           else if eqNegZero infos n.args then .same else .unk,
+      kb := if cmpFlip infos n.args then some true else none }
   | .not => { d := match d 0 with | .same => .same | .bnot => .bnot | _ => .unk }
   | .isfinite => { d := match d 0 with | .same => .same | .neg => .same | _ => .unk }
-  | .select => { d := selDesc (d 0) (d 1) (d 2) (isNegPair infos n.args) }
+  | .select =>
+    { d := match kbOf infos n.args 0 with
+        | some true => (match d 1 with | .same => .same | .neg => .neg | _ => .unk)
+        | some false => (match d 2 with | .same => .same | .neg => .neg | _ => .unk)
+        | none => selDesc (d 0) (d 1) (d 2) (isNegPair f infos n.args) }
   | .libm name =>
     { d := if n.args.all (fun j => match infos[j]? with | some x => x.d == .same | none => false) then .same
            else if name = "atan2" ∧ n.args.length = 2 ∧ d 0 = .neg ∧ d 1 = .same then .neg
+           else if name = "cos" ∧ n.args.length = 1 ∧ d 0 = .neg then .same
+           else if name = "sin" ∧ n.args.length = 1 ∧ d 0 = .neg then .neg
+           else if name = "sign" ∧ n.args.length = 1 ∧ nzinOf infos n.args 0 = true then .neg
            else .unk }
   | _ => { d := .unk }
 
